@@ -1168,8 +1168,13 @@ class MomentumAndEnergyStdGrad(MomentumAndEnergy):
                 aanum += d_dv[dsi2 + rowcol] * XIJ[row] * XIJ[col]
                 aaden += s_dv[ssi2 + rowcol] * XIJ[row] * XIJ[col]
 
-        aaij = aanum / aaden
-        phiijin = min(1.0, 4.0 * aaij / ((1.0 + aaij) * (1.0 + aaij)))
+        # 4A/(1+A)^2 with A = aanum/aaden, written without the division:
+        # exactly symmetric in the pair and zero when either projection
+        # vanishes (A -> 0 or A -> infinity)
+        aasum = aanum + aaden
+        phiijin = 0.0
+        if aasum != 0.0:
+            phiijin = min(1.0, 4.0 * aanum * aaden / (aasum * aasum))
         phiij = max(0.0, phiijin)
 
         if etaij < self.eta_crit:
@@ -1286,8 +1291,13 @@ class MomentumAndEnergyMI1(MomentumAndEnergy):
                 aanum += d_dv[dsi2 + rowcol] * XIJ[row] * XIJ[col]
                 aaden += s_dv[ssi2 + rowcol] * XIJ[row] * XIJ[col]
 
-        aaij = aanum / aaden
-        phiijin = min(1.0, 4.0 * aaij / ((1.0 + aaij) * (1.0 + aaij)))
+        # 4A/(1+A)^2 with A = aanum/aaden, written without the division:
+        # exactly symmetric in the pair and zero when either projection
+        # vanishes (A -> 0 or A -> infinity)
+        aasum = aanum + aaden
+        phiijin = 0.0
+        if aasum != 0.0:
+            phiijin = min(1.0, 4.0 * aanum * aaden / (aasum * aasum))
         phiij = max(0.0, phiijin)
 
         if etaij < self.eta_crit:
@@ -1408,8 +1418,13 @@ class MomentumAndEnergyMI2(MomentumAndEnergy):
                 aanum += d_dv[dsi2 + rowcol] * XIJ[row] * XIJ[col]
                 aaden += s_dv[ssi2 + rowcol] * XIJ[row] * XIJ[col]
 
-        aaij = aanum / aaden
-        phiijin = min(1.0, 4.0 * aaij / ((1.0 + aaij) * (1.0 + aaij)))
+        # 4A/(1+A)^2 with A = aanum/aaden, written without the division:
+        # exactly symmetric in the pair and zero when either projection
+        # vanishes (A -> 0 or A -> infinity)
+        aasum = aanum + aaden
+        phiijin = 0.0
+        if aasum != 0.0:
+            phiijin = min(1.0, 4.0 * aanum * aaden / (aasum * aasum))
         phiij = max(0.0, phiijin)
 
         if etaij < self.eta_crit:
